@@ -95,7 +95,7 @@ def dumpVals (heap : Heap) (vs : List HVal) (seen : List (Nat × Nat)) : String 
 
 def errStr : Err → String
   | .index => "index" | .type => "type" | .unhashable => "unhashable" | .args => "args"
-  | .fuel => "fuel" | .cycle => "cycle"
+  | .fuel => "fuel" | .cycle => "cycle" | .depth => "depth"
 
 def dumpState (st : St) (r : Res) : String :=
   let (sv, seen1) := dumpVals st.heap st.vars []
